@@ -133,7 +133,7 @@ def cmd_table():
         def ex(t):
             return {None: "-", 0: "missed", 1: "VIOLATION", 2: "undecided"}.get(ch.get(t, {}).get("exit"), "?") if t in ch else "-"
         units = sorted(set(re.sub(r"_[a-z]*_?\d.*|\.json.*", "", os.path.basename(l.split("replay=")[1].split()[0])) for t in ch.values() for l in t.get("lines", []) if l.startswith("VIOLATION")))
-        print("| %s | %s | %s | %s | %s | %s | %s |" % (sid, m["property"], (m.get("summary") or "")[:160], "yes" if m.get("confirmed") else "no", ex("quick"), ex("thorough"), ", ".join(units)[:120]))
+        print("| %s | %s | %s | %s | %s | %s | %s |" % (sid, m["property"], (m.get("summary") or "").replace("|", "\\|")[:170], "yes" if m.get("confirmed") else "no", ex("quick"), ex("thorough"), ", ".join(units)[:120]))
 
 
 if __name__ == "__main__":
